@@ -22,7 +22,8 @@ def _float(s):
         return None
 
 
-def lex(fb, text, max_tokens=12):
+def lex(fb, text, max_tokens=12, raw=None):
+    """raw: a list that receives the abstract Result<Token> items as the lexer yields them (for feeding the parser)"""
     nxt = fb.find("<parser::lexer::Lexer as std::iter::Iterator>::next")
     lx = fb.adt("parser::lexer::Lexer")["variants"][0]["fields"]
     names = [f["name"] for f in lx]
@@ -95,6 +96,8 @@ def lex(fb, text, max_tokens=12):
         if r.variant == 0:      # None: end of input
             return out
         item = r.fields[0] if r.fields else None
+        if raw is not None:
+            raw.append(item)
         if not isinstance(item, Enum):
             out.append(("stuck", "item %r" % (item,)))
             return out
@@ -140,3 +143,57 @@ def _describe(data):
     if n == "Identifier":
         return ("Identifier", data.fields[0] if data.fields else None)
     return (n, None)
+
+
+# ------------------------------------------------------------------------------------------------ probes: the reader never panics
+
+PROBES = [
+    # strings: every escape class, the inline hex escape at the ends of every range of code points, unterminated forms
+    '"a"', '"\\n"', '"\\t"', '"\\\\"', '"\\""', '"\\q"', '"\\x41;"', '"\\x;"', '"\\x0;"', '"\\xD7FF;"', '"\\xD800;"', '"\\xdfff;"',
+    '"\\xE000;"', '"\\x10FFFF;"', '"\\x110000;"', '"\\xFFFFFFFF;"', '"\\x100000000;"', '"\\x41"', '"\\xZ;"', '"\\x', '"abc', '"\\',
+    '"a\\\n   b"',
+    # characters
+    "#\\a", "#\\space", "#\\newline", "#\\x41", "#\\x", "#\\xD800", "#\\x110000", "#\\xFFFFFFFFF", "#\\", "#\\ ", "#\\λ", "#\\nul", "#\\spac",
+    # sharp forms
+    "#t", "#f", "#true", "#false", "#tru", "#(", "#u8(", "#u", "#u8", "#", "#;", "#|a|#", "#|a", "#!x", "#z", "#1", "#e1", "#x1F", "#b101",
+    # |identifiers|
+    "|a b|", "|a\\x41;b|", "|a\\xD800;|", "|a", "||", "|a\\|b|",
+    # numbers at and beyond every limit
+    "1/0", "1/", "/1", "1e", "1e+", "1e999", "-1e999", "1.5e-999", "99999999999", "-99999999999", "2147483648", "-2147483649", "1/99999999999",
+    "1/4294967296", "99999999999/3", "1.2.3", "1..2", "+-1", "1+", "1e1e1", "00000000000000000000001", "0.00000000000000000000000000000000000000000000001",
+    # punctuation
+    "'", "`", ",", ",@", ".", "..", "...", "(", ")", "( . )", "[", "]", "{", "}", "\\", "@", "\x00", "\x7f", "\u00a0", "\u2028", "\ufeff",
+]
+
+
+def probe_rule(ctx, rule_id):
+    """every probe text — boundary literals of every token class, unterminated and malformed forms — is tokenised to the end, into
+    tokens or a reported error: the abstract run of the whole lexer must not reach a panic (unwrap on None, an index out of range,
+    an arithmetic overflow assertion)"""
+    from .ctx import where_of
+    fb = ctx.fb()
+    nx = fb.find("<parser::lexer::Lexer as std::iter::Iterator>::next")
+    n = und = 0
+    bad = []
+    extra = [chr(0), chr(127), chr(0xa0), chr(0x2028), chr(0xfeff), "a" + chr(0) + "b", "\t", "\r", "\r\n", ";", "; c", ";\n"]
+    for text in [x for x in PROBES if not x.startswith("\\x0") and not x.startswith("\\x7") and not x.startswith("\\u")] + extra:
+        for tail in (" ", ""):
+            toks = lex(fb, text + tail, max_tokens=8)
+            if toks and toks[-1][0] == "panic":
+                bad.append((text + tail, toks[-1][1]))
+            elif toks and toks[-1][0] == "stuck":
+                und += 1
+            else:
+                n += 1
+    ctx.inst(rule_id, "reader-probes", {"texts": n, "not_followed": und, "panics": len(bad)})
+    if und and not n:
+        ctx.undecided(rule_id, "reader-probes", "the lexer could not be followed on any probe text", where_of(nx))
+    ctx.oblige(not bad)
+    seen = set()
+    for text, why in bad:
+        key = "reader-probes/%s" % why.split(" in ")[-1][:60]
+        if key in seen:
+            continue
+        seen.add(key)
+        ctx.report(rule_id, key, "reading the text %r panics (%s) instead of yielding tokens or a reported error" % (text, why), where_of(nx))
+    return n
